@@ -4,6 +4,7 @@ import (
 	"context"
 	"fmt"
 	"io"
+	"runtime"
 	"strconv"
 	"strings"
 	"sync"
@@ -29,7 +30,7 @@ var lifeScenarios = []string{
 	"closenow-reader-blocked", "closenow-writer-blocked", "closenow-idle", "close-reader-blocked-echo",
 	"closeread-data-echo", "closeread-data-silent", "closeread-peer-close", "closeread-then-closenow",
 	"close-unmarshalable-reason", "close-invalid-code", "close-unmarshalable-reason-closeread",
-	"stream-write-pong-between-then-cancel", "cancel-during-stream-write", "cancel-while-waiting-for-lock", "emptyfin-read-then-cancel", "closeread-twice-closenow", "closeread-twice-data", "closeread-derived-contexts-closenow",
+	"stream-write-pong-between-then-cancel", "cancel-during-stream-write", "cancel-while-waiting-for-lock", "emptyfin-read-then-cancel", "closeread-twice-closenow", "closeread-twice-data", "closeread-derived-contexts-closenow", "closeread-parent-cancelled-closenow",
 	"peer-close-then-close", "proto-error-then-close", "transport-failure-then-close", "abandoned-reader-close", "abandoned-writer-close", "netconn-close",
 }
 
@@ -173,6 +174,7 @@ func runLife(kv map[string]string) string {
 	}
 	closedObs := "-"
 	crDone := "-"
+	innerLeak := ""
 	switch scen {
 	case "write-then-cancel":
 		ctx1, cancel1 := context.WithCancel(bg)
@@ -471,6 +473,42 @@ func runLife(kv map[string]string) string {
 				cf()
 			}
 		}()
+	case "closeread-parent-cancelled-closenow":
+		// the context given to CloseRead is cancelled just before CloseNow (the usual order of deferred calls): CloseNow must
+		// still wait for the CloseRead goroutine, whatever state it is in (not yet running, blocked in its read, on its way out)
+		for i := 0; i < 60 && innerLeak == ""; i++ {
+			ci, rawi, err := newLibConn(cfg)
+			if err != nil {
+				break
+			}
+			go rawi.ReadAllUntilClosed()
+			websocket.VerifTraceOn(ci)
+			ctxP, cancelP := context.WithCancel(bg)
+			ci.CloseRead(ctxP)
+			switch i % 3 {
+			case 1:
+				runtime.Gosched()
+			case 2:
+				time.Sleep(time.Duration(i) * 20 * time.Microsecond)
+			}
+			cancelP()
+			ci.CloseNow()
+			crE, tlE := 0, 0
+			for _, ev := range websocket.VerifTrace(ci) {
+				if ev.Ev == websocket.VerifEvGoExit {
+					if ev.A == 1 {
+						crE++
+					} else {
+						tlE++
+					}
+				}
+			}
+			websocket.VerifTraceOff(ci)
+			if crE != 1 || tlE != 1 {
+				innerLeak = fmt.Sprintf("leak-at-return:round=%d:timeoutLoop-exits=%d:closeRead-exits=%d/1", i, tlE, crE)
+			}
+		}
+		measure(func() error { return c.CloseNow() })
 	case "closeread-data-echo", "closeread-data-silent", "closeread-peer-close", "closeread-then-closenow":
 		ctx := c.CloseRead(bg)
 		t0 := time.Now()
@@ -630,6 +668,9 @@ func runLife(kv map[string]string) string {
 	}
 	if gorAtReturn != "" {
 		gor = gorAtReturn
+	}
+	if innerLeak != "" {
+		gor = innerLeak
 	}
 	if e.armBad != "" && armBad == "" {
 		armBad = e.armBad
